@@ -80,6 +80,8 @@ func replay() {
 				fmt.Printf("%4d %-28s impl=%s | model=%s\n", i, truncate(t.lines[i], 28), truncate(t.want[i], 150), truncate(g, 150))
 			}
 		}
+	case "btree":
+		btreeReplay(rep, rf.Replay)
 	case "flprog":
 		var r struct {
 			Kind  string   `json:"kind"`
